@@ -31,6 +31,22 @@ CHECKS = {
         "DESIGN.md sections 3 and 5 (C03)",
         "E1 reference Z80 + trace bus",
     ),
+    "C04": (
+        "property-based differential testing (proptest): single instructions at generated frame positions and memory placements against reference Z80 bus cycles + contention model",
+        "exploration",
+        "Each sub-case places one of the 1792 encodings, its operands, stack, I register and port address in contended/uncontended memory (both machines, any 128K paging), sets the frame clock through the hook with forced coverage of every residue mod 8 and the window/line/frame edges, executes it on the emulator and on the reference machine and compares the end T-state (incl. frame wraps) exactly; registers and written memory as side condition.",
+        REF + "Contention model transcribed from the property text (per-line restart of the pattern on the 128K, see DESIGN.md section 8) and self-checked; floating-bus/AY read data not modelled (time still compared).",
+        "DESIGN.md sections 4 and 5 (C04)",
+        "E2 reference machine + emulator lock-step",
+    ),
+    "C05": (
+        "property-based differential testing (proptest) of generated interrupt-driven programs against a time-conserving reference machine; exhaustive enumeration of boundary T-states around the INT pulse",
+        "exploration",
+        "Generated programs (busy, HALT-driven, EI/DI toggling, short re-entrant and long self-counting handlers, IM 0/1/2, code in contended/uncontended/paged RAM) run for 1..200 frames per emulate_frames call; after every call frame counter, frame clock, registers and HALT state must equal a reference machine whose time is one monotone T counter with INT asserted iff T mod frame length < 32; RAM compared at the end. The boundary T-states 0..79 and the last 40 of the frame are enumerated exhaustively for acceptance.",
+        REF + "Programs avoid prefix chains and unclaimed-port reads so that one emulate() = optional interrupt entry + one instruction.",
+        "DESIGN.md sections 4 and 5 (C05)",
+        "E2 reference machine + emulator lock-step",
+    ),
     "C06": (
         "property-based testing (proptest) of port-write/memory-access histories against a reference memory map executed by the emulated CPU",
         "exploration",
